@@ -15,6 +15,8 @@ pub enum Case {
     DeriveHex { kem: Kem, ikm: String },
     /// all big-endian ikm values start..start+count of `width` bytes
     DeriveRange { kem: Kem, width: usize, start: u32, count: u32 },
+    /// every ikm LENGTH from..=to; ikm of neighbouring lengths share a prefix (a dropped or duplicated tail byte shows)
+    DeriveLens { kem: Kem, from: usize, to: usize },
     Gen { kem: Kem, fill: Fill, tag: u64, extra: usize },
     /// gen_keypair / encap with an RNG that hands out exactly these bytes
     GenHex { kem: Kem, script: String },
@@ -77,7 +79,7 @@ impl Part for C03 {
         if cfg.tier.thorough() {
             "11 ikm lengths x 5 fills + P-256 rejection-branch witness; all 256 one-byte ikm for 4 KEMs, all 65536 two-byte ikm for X25519 and P-256; 12 key triples x 2 auth modes x 4 KEMs".into()
         } else {
-            "11 ikm lengths x 2 fills + P-256 rejection-branch witness; all 256 one-byte ikm for X25519 and P-256; 6 key triples x 2 auth modes x 4 KEMs".into()
+            "11 ikm lengths x 2 fills + every ikm length 0..400 (X25519, P-256) + P-256 rejection-branch witness; all 256 one-byte ikm for X25519 and P-256; 6 key triples x 2 auth modes x 4 KEMs".into()
         }
     }
     fn enumerate(&self, cfg: &Cfg) -> Vec<Case> {
@@ -122,6 +124,17 @@ impl Part for C03 {
                 }
             }
         }
+        for kem in KEMS {
+            let n = match kem {
+                Kem::X25519 | Kem::P256 => if t { 1100 } else { 400 },
+                _ => if t { 400 } else { 0 },
+            };
+            let mut f = 0;
+            while f < n {
+                v.push(Case::DeriveLens { kem, from: f, to: (f + 49).min(n) });
+                f += 50;
+            }
+        }
         v.push(Case::DeriveHex { kem: Kem::P256, ikm: P256_RETRY_WITNESS.into() });
         v.push(Case::DeriveHex { kem: Kem::P256, ikm: P256_RETRY_WITNESS_32.into() });
         v.push(Case::GenHex { kem: Kem::P256, script: P256_RETRY_WITNESS_32.into() });
@@ -154,6 +167,13 @@ impl Part for C03 {
                     let ikm: Vec<u8> = if *width == 1 { vec![x as u8] } else { vec![(x >> 8) as u8, x as u8] };
                     // keep the R2 transcript small: only every 97th value of a range goes to R2
                     derive_check(&mut out, *kem, &ikm, if x % 97 == 0 { tr } else { None });
+                }
+            }
+            Case::DeriveLens { kem, from, to } => {
+                out.outcome = format!("derive-lengths/{}", kem.name());
+                let long = bytes(Fill::Mix, *to + 1, 3777, cfg.seed);
+                for l in *from..=*to {
+                    derive_check(&mut out, *kem, &long[..l], if l % 41 == 0 { tr } else { None });
                 }
             }
             Case::GenHex { kem, script } => {
